@@ -137,7 +137,8 @@ def is_special(special: dict, name: str, source: str, start: int, end: int):
             return True
 
         attrs = attributes(source[start + len(name) + 1:end - 1])
+        # NB: media type is case-insensitive: `type="text/JavaScript"`
         value = get_attribute_value(attrs, 'type') or ''
-        return value in type_values
+        return value.strip().lower() in type_values
 
     return False
